@@ -4,6 +4,9 @@ go 1.21
 
 require github.com/whatap/golib v0.0.0
 
-require golang.org/x/text v0.7.0 // indirect
+require (
+	github.com/google/uuid v1.3.0 // indirect
+	golang.org/x/text v0.7.0 // indirect
+)
 
 replace github.com/whatap/golib => /repo
